@@ -990,7 +990,59 @@ def rule_weightsplit(ctx):
     return res.finish(1)
 
 
+def rule_gather(ctx):
+    """`select(Axis(0), &indices)` gathers: new row i is old row indices[i].  Whatever else is carried along with the same
+    index vector (weights) has to be gathered too - `out[i] = in[indices[i]]`.  A loop that writes `out[indices[i]] = in[i]`
+    scatters: it applies the inverse permutation, and every weight lands on another sample than its record."""
+    res = RuleResult("R-C02-gather", "in a function that gathers records with select(Axis(0), &indices), nothing else is scattered with the same indices (out[indices[i]] = in[i])")
+    F = ctx.facts()
+    n = 0
+    from .c17 import for_loops
+    for fn in F.all_fns():
+        d = fn["d"]
+        if d["krate"] != "linfa" or not fn_file(fn).startswith("src/dataset/") or fn.get("exp") or "tests" in d["path"]:
+            continue
+        c = fn["crate"]
+        idx_locals = set()
+        for y in walk(fn["body"]):
+            if y.get("k") == "MethodCall" and y["name"] == "select" and len(y["args"]) == 2:
+                a = peel_refs(y["args"][1])
+                if a.get("k") == "Path" and "local" in a:
+                    idx_locals.add(a["local"])
+        if not idx_locals:
+            continue
+        n += 1
+        key = fn_key(fn)
+        res.instance("%s : gathers with %d index vector(s)" % (key, len(idx_locals)))
+        bad = None
+        for it, pat, body, node in for_loops(fn["body"]):
+            src = peel_refs(it)
+            names = []
+            while src.get("k") == "MethodCall":
+                names.append(src["name"])
+                src = peel_refs(src["recv"])
+            if "enumerate" not in names or src.get("k") != "Path" or src.get("local") not in idx_locals:
+                continue
+            if pat.get("k") != "Tuple" or len(pat.get("pats", [])) != 2:
+                continue
+            pos = [b["local"] for b in pat_bindings(pat["pats"][0])]
+            val = [b["local"] for b in pat_bindings(pat["pats"][1])]
+            for y in walk(body):
+                if y.get("k") == "Assign" and peel_refs(y["l"]).get("k") == "Index":
+                    li = peel_refs(peel_refs(y["l"])["i"])
+                    rs = [peel_refs(z["i"]) for z in walk(y["r"]) if z.get("k") == "Index"]
+                    if li.get("k") == "Path" and li.get("local") in val and any(r_.get("k") == "Path" and r_.get("local") in pos for r_ in rs):
+                        bad = y
+        if bad is None:
+            res.ok()
+        else:
+            res.violate("%s : scattered-with-the-gather-indices" % key, "`%s` writes position indices[i] from position i while the records are gathered with select(Axis(0), &indices) (row i from row indices[i]): this is the inverse permutation, the values end up on other samples than their records" % Render(c).e(bad)[:70], fn_loc(fn, bad.get("ln")))
+    if n < 1:
+        res.missing_anchor("dataset functions that gather rows with select(Axis(0), &indices)")
+    return res.finish(1)
+
+
 def rules(tier):
     from . import iteroverride, intnarrow
     return [intnarrow.make_rule("R-C02-narrow", lambda f: f["d"]["krate"] == "linfa" and "dataset" in fn_file(f), "the dataset code of the linfa crate"),
-            iteroverride.make_rule("R-C02-iter", {"linfa"}, 3, "the linfa crate (sample, feature / target and chunk iterators of a dataset)"), rule_align, rule_filter, rule_weightsplit, rule_columns, rule_layout, rule_domain, rule_memorder, rule_extent, rule_search, rule_counted, rule_unit]
+            iteroverride.make_rule("R-C02-iter", {"linfa"}, 3, "the linfa crate (sample, feature / target and chunk iterators of a dataset)"), rule_align, rule_filter, rule_weightsplit, rule_gather, rule_columns, rule_layout, rule_domain, rule_memorder, rule_extent, rule_search, rule_counted, rule_unit]
